@@ -12,8 +12,6 @@ Open Scope N_scope.
 
 Inductive ckind : Type := KBox | KBoxSlice | KVec | KRc | KRcSlice | KArc | KArcSlice.
 
-Record cont : Type := mkCont { cptr : N; clen : N; ccap : N }.
-
 Definition round_up (n a : N) : N := (n + a - 1) / a * a.
 
 (* std: the heap block that a container of [n] (length) / [cap] (capacity) elements of T owns, as
@@ -117,7 +115,6 @@ Definition cast_outcome_ok (k : ckind) (A B : ty) (c : cont) (r : cres) : Prop :
   end.
 
 (* ---- BoxBytes ---- *)
-Record boxbytes : Type := mkBB { bb_ptr : N; bb_layout : layout }.
 
 (* box_bytes_of: sized value / slice (str is a slice of u8) *)
 Definition box_bytes_of_sized (T : ty) (c : cont) : boxbytes := mkBB (cptr c) (mkLayout (sz T) (al T)).
